@@ -1,0 +1,93 @@
+//! Verification accessors for `stream/reader/outputlog.rs` (mounted there as a child module under
+//! `#[cfg(it4innovations_hyperqueue_verif)]`, so that it can see the private index). Nothing in here is
+//! used by the production build; every function only *reads* the index built by the production code or
+//! calls the production functions (`create_index`, `_gather_infos`, `read_buffer`, `last_instance`,
+//! `superseded`).
+use super::*;
+
+/// One `InstanceInfo`, as plain data.
+#[derive(Debug, Clone)]
+pub struct InstanceDump {
+    pub instance_id: u32,
+    pub file_idx: usize,
+    pub finished: bool,
+    /// per channel: (position, size) of every chunk, index order
+    pub channels: [Vec<(u64, u32)>; 2],
+}
+
+impl OutputLog {
+    /// `OutputLog` over an explicit list of paths (explicit order): the production `create_index`.
+    pub fn verif_from_paths(paths: Vec<PathBuf>) -> crate::Result<OutputLog> {
+        let index = Self::create_index(&paths)?;
+        Ok(OutputLog {
+            paths,
+            index,
+            cache: LruCache::new(NonZeroUsize::new(16).unwrap()),
+        })
+    }
+
+    /// The accepted files in the order `open` listed them.
+    pub fn verif_paths(&self) -> &[PathBuf] {
+        &self.paths
+    }
+
+    /// The whole index: (job, task, instances in index order).
+    pub fn verif_index(&self) -> Vec<(u32, u32, Vec<InstanceDump>)> {
+        let mut out = Vec::new();
+        for (job_id, tasks) in &self.index {
+            for (task_id, info) in tasks {
+                let instances = info
+                    .instances
+                    .iter()
+                    .map(|i| InstanceDump {
+                        instance_id: i.instance_id.as_num(),
+                        file_idx: i.file_idx,
+                        finished: i.finished,
+                        channels: [
+                            i.channels[0].iter().map(|c| (c.position, c.size)).collect(),
+                            i.channels[1].iter().map(|c| (c.position, c.size)).collect(),
+                        ],
+                    })
+                    .collect();
+                out.push((job_id.as_num(), task_id.as_num(), instances));
+            }
+        }
+        out
+    }
+
+    /// What `cat <job> <channel> --task <task> --allow-unfinished` would print, returned instead of
+    /// printed, plus the `finished` flag of the selected instance: production `_gather_infos`
+    /// (→ `last_instance`) and production `read_buffer` per chunk, in the loop order of `cat`.
+    pub fn verif_cat(
+        &mut self,
+        job: JobId,
+        task: u32,
+        channel: usize,
+    ) -> anyhow::Result<(bool, Vec<u8>)> {
+        let task_infos = Self::_gather_infos(&self.index, job, &Some(IntArray::from_id(task)))?;
+        let mut finished = true;
+        let mut out = Vec::new();
+        let mut buffer = Vec::new();
+        for (_, instance) in &task_infos {
+            finished &= instance.finished;
+            for chunk in &instance.channels[channel] {
+                buffer.resize(chunk.size as usize, 0u8);
+                Self::read_buffer(
+                    &mut self.cache,
+                    &self.paths,
+                    instance.file_idx,
+                    chunk.position,
+                    &mut buffer,
+                )?;
+                out.extend_from_slice(&buffer);
+            }
+        }
+        Ok((finished, out))
+    }
+
+    /// Instance ids that `TaskInfo::superseded` yields for a task (index order).
+    pub fn verif_superseded(&self, job: JobId, task: u32) -> Option<Vec<u32>> {
+        let info = self.index.get(&job)?.get(&JobTaskId::new(task))?;
+        Some(info.superseded().map(|i| i.instance_id.as_num()).collect())
+    }
+}
